@@ -10,7 +10,7 @@ CHECKS = {
          "Every canonical register program up to K gates per input layout, every input assignment, the full role product (p_eval x p_out x tmp_dir mask) on feature circuits for n=2..5 and AND chains on both sides of every batch boundary are executed on the real engine; outputs are compared with a clear-text evaluator written in the harness.",
          "default schedule only (schedules are C12); circuits beyond the size bound only through the structured families; harness-owned entropy", "4.C01", "E1+E3"),
  "C11": ("exploration", "exhaustive enumeration of OT lengths x choice patterns x session orders on the real KOS/ALSZ/Chou-Orlandi code",
-         "Every length (thorough: 1..4096; quick: 1..320 plus all 8k/128k boundaries) with constant, alternating and tape-derived choice vectors, constant and index-dependent correlations and both session orders is run through the real kos_ot_sender/kos_ot_receiver pair; every index is compared with x0 xor b*delta.",
+         "Every length (thorough: 1..4096; quick: 1..1030 plus all 8k/128k boundaries up to 4097) with constant, alternating and tape-derived choice vectors, constant and index-dependent correlations and both session orders is run through the real kos_ot_sender/kos_ot_receiver pair; every index is compared with x0 xor b*delta.",
          "entry points are the crate's own __bench re-exports; value domain of correlations is sampled by tape", "4.C11", "E1"),
  "C05": ("exploration", "exhaustive role enumeration on the real mpc with a monitor over schema-decoded recorded traffic",
          "Every p_eval x every non-empty p_out for n=2..4 on circuits with register reuse/aliasing, outputs that are inputs and duplicated outputs; every message addressed to a party after its input processing is classified and decoded: nothing for non-output parties, only 'output wire shares' / evaluator 'lambda' with Some exactly at output registers for output parties.",
